@@ -1788,8 +1788,12 @@ func (s *Server) clearExpiredClients(dt int64) {
 			expire = client.Properties.Props.SessionExpiryInterval
 		}
 
-		if disconnected+int64(expire) < dt {
+		if disconnected+int64(expire) < dt && !client.IsTakenOver() {
 			s.hooks.OnClientExpired(client)
+			if client.IsTakenOver() {
+				continue // a new connection has resumed the session meanwhile: it is not this object's to discard any more
+			}
+
 			client.ClearInflights() // nothing of an expired session may survive it [MQTT-4.1.0-2]
 			s.UnsubscribeClient(client)
 			s.Clients.Delete(id) // [MQTT-4.1.0-2]
